@@ -1,12 +1,12 @@
 SPECIFICATION Spec
 CONSTANTS
-  NG = 2
+  NG = 1
   NO = 2
   ND = 2
-  NP = 2
+  NP = 1
   Names = {"a", "b"}
   Vals = {1, 2}
-  Acts = {"CreateGroup", "CreateObject", "AddData", "AddToGroup", "Copy", "SetVal", "Rename", "Close", "Open"}
+  Acts = {"CreateGroup", "CreateObject", "AddData", "AddToGroup", "Copy", "SetVal", "SetMeta", "Rename", "Close", "Open"}
   Deviations = {"CloseKeepsOrphans"}
   MaxDepth = 5
 CONSTRAINT DepthBound
